@@ -758,6 +758,34 @@ template <class T, class LY> void check_planar_binding(const char* group) {
     vh::evals(g_evals - e0); vh::distinct(1);
 }
 
+// bit_aligned_pixel_reference(packed_pixel&): the proxy designates the packed pixel's own bits, colour by colour
+template <class BF, class LY, unsigned... S> void check_bits_binding(const char* group) {
+    typedef H_packed<BF, LY, S...> HP; enum { N = HP::N };
+    typedef typename HP::csi csi;
+    typedef gil::bit_aligned_pixel_reference<BF, typename HP::sizes_t, typename LY::type, true> ref_t;
+    std::string mn = vh::cat("bitref(", HP::name(), "&)");
+    if (!vh::begin_case(vh::cat("bind.", group), mn)) return;
+    uint64_t e0 = g_evals;
+    HP h, src;
+    double a[N], e[N];
+    for (int k = 0; k < N; ++k) { a[k] = HP::maxv(k) - (k & 1); e[k] = other_value<HP>(k, a[k]); }
+    fill(h, a);
+    ref_t br(h.ref());
+    auto f = [&](auto kc) {
+        constexpr int K = decltype(kc)::value;
+        ++g_evals;
+        double v = to_raw(gil::semantic_at_c<K>(br));
+        if (v != a[K]) vh::viol(vh::cat("bind-bitref.", mn), vh::cat("colour ", csi::cname(K), " read through the proxy is ", v, ", the packed pixel holds ", a[K]));
+    };
+    KLoop<0, N>::run(f);
+    fill(src, e);
+    br = src.cref();
+    int bad = 0; g_evals += 2;
+    if (!holds(h, e, &bad)) vh::viol(vh::cat("bind-bitref-write.", mn), vh::cat("after proxy = pixel, colour ", csi::cname(bad), " of the packed pixel is ", h.get(bad), " expected ", e[bad]));
+    if (!h.guards_ok()) vh::viol(vh::cat("bind-bitref-outside.", mn), "bytes around the packed pixel changed");
+    vh::evals(g_evals - e0); vh::distinct(1);
+}
+
 // ---- enumeration -------------------------------------------------------------------------------------------
 template <class S, class... D> void pairs_row(const char* g, TL<D...>) { using sw = int[]; (void)sw{0, (check_pair<S, D>(g), 0)...}; }
 template <class... S, class DL> void all_pairs(const char* g, TL<S...>, DL d) { using sw = int[]; (void)sw{0, (pairs_row<S>(g, d), 0)...}; }
@@ -822,6 +850,7 @@ template <class BF, unsigned... S> struct packed_family {
         typedef TL<H_packed<BF, LY, S...>..., H_bits<BFB, LY, true, S...>..., H_bits<BFB, LY, false, S...>...> src;
         all_models(g.c_str(), src());
         all_pairs(g.c_str(), src(), dst());
+        using sw = int[]; (void)sw{0, (check_bits_binding<BF, LY, S...>(g.c_str()), 0)...};
     }
     // one destination layout only (splits the 96 rgba pairs of a family over translation units)
     template <class DL, class... LY> static void run_dst(const char* csname, TL<LY...>) {
@@ -830,6 +859,7 @@ template <class BF, unsigned... S> struct packed_family {
         typedef TL<H_packed<BF, LY, S...>..., H_bits<BFB, LY, true, S...>..., H_bits<BFB, LY, false, S...>...> src;
         all_models(g.c_str(), TL<H_packed<BF, DL, S...>, H_bits<BFB, DL, true, S...>, H_bits<BFB, DL, false, S...>>());
         all_pairs(g.c_str(), src(), dst());
+        check_bits_binding<BF, DL, S...>(g.c_str());
     }
 };
 
